@@ -124,6 +124,9 @@ func mapOrigin(v ssa.Value, depth int) (field *types.Var, owner string, nest int
 		var o0 string
 		n0 := -1
 		for _, e := range x.Edges {
+			if _, fresh := e.(*ssa.MakeMap); fresh {
+				continue // the bucket created when the lookup found none (`v, ok := m[k]; if !ok { v = map…; m[k] = v }`)
+			}
 			f, o, n, ok2 := mapOrigin(e, depth+1)
 			if !ok2 {
 				return nil, "", 0, false
@@ -159,6 +162,20 @@ func paramMapOrigin(v ssa.Value, depth int) (*ssa.Parameter, int) {
 		}
 	case *ssa.Extract:
 		return paramMapOrigin(x.Tuple, depth+1)
+	case *ssa.Phi:
+		var p0 *ssa.Parameter
+		n0 := 0
+		for _, e := range x.Edges {
+			if _, fresh := e.(*ssa.MakeMap); fresh {
+				continue
+			}
+			p, n := paramMapOrigin(e, depth+1)
+			if p == nil || (p0 != nil && (p0 != p || n0 != n)) {
+				return nil, 0
+			}
+			p0, n0 = p, n
+		}
+		return p0, n0
 	}
 	return nil, 0
 }
